@@ -347,7 +347,10 @@ Reconcile(s0, j, e) ==
         expd == {k \in missing : Zone(st, k) = "maybe"}
         lost == missing \ expd
         random == st.policy = "random"
-        pressure == random /\ n > 0 /\ s0.bytes + n > st.L
+        \* memory pressure: the records stored after this (acknowledged) store, had nothing been evicted, exceed the
+        \* limit - the record the store replaces does not count twice, a refused store adds nothing
+        oldSize == IF e.op \in KeyedOps /\ s0.item[e.k].p THEN 24 + (Len(s0.item[e.k].val) \div 2) ELSE 0
+        pressure == random /\ n > 0 /\ Acked(e) /\ (s0.bytes - (IF oldSize <= s0.bytes THEN oldSize ELSE 0)) + n > st.L
         acctPressure == random /\ n > 0 /\ Less(NatToStr(st.L), s0.usage)       \* the code's own criterion
         last == IF n > 0 /\ Acked(e) THEN n ELSE st.lastSize      \* the record just written
         st2  == [st EXCEPT !.item = [k \in st.keys |-> IF k \in missing THEN NoItem ELSE st.item[k]],
